@@ -156,7 +156,7 @@ func (r *Runner) fail(oracle, sig, format string, a ...interface{}) {
 		return
 	}
 	detail := fmt.Sprintf(format, a...)
-	if !r.judging {
+	if !r.judging && os.Getenv("VSIM_JUDGE_ALL") == "" {
 		r.Aborted = fmt.Sprintf("step %d: %s: %s", r.step, oracle, detail)
 		return
 	}
